@@ -13,7 +13,7 @@ def strip(t):
     if not isinstance(t, tuple) or not t or not isinstance(t[0], str):
         return t
     k = t[0]
-    if k == "ref":
+    if k in ("ref", "refv"):
         return strip(t[1])
     if k == "deref":
         return strip(t[1])
